@@ -231,7 +231,9 @@ PROPS["C11"] = dict(
         H("c11::c11_in_flight_cap_range", "core", desc="BDP in-flight cap >= 1, defined for every input"),
         H("c11::c11_soft_cap_range", "core", desc="soft-cap factor within [0.1, 1] for every target / measured rate"),
         H("c11::c11_leaf_tables_exact", "core", desc="the tables standing in for the two f64 leaves equal the real functions on the leaf domain"),
-        H("c11b::c11_enhanced_oracle_n2", "core", desc="enhanced choice == recomposed oracle: gate precedence, 0.8 warming, 0.02 penalty, 1.10 hysteresis, capped link never chosen while an unconstrained one exists, re-run stability", bounds="N=2, grid", timeout=2400),
+        # thorough only: ~11 min (a fresh-sandbox run of the quick tier under load stopped it at 900 s); the quick tier keeps the
+        # range / leaf harnesses here and the enhanced selection harness c03_enhanced_n2 under C03 / C04 / C12
+        H("c11b::c11_enhanced_oracle_n2", "core", tier="thorough", desc="enhanced choice == recomposed oracle: gate precedence, 0.8 warming, 0.02 penalty, 1.10 hysteresis, capped link never chosen while an unconstrained one exists, re-run stability", bounds="N=2, grid", timeout=2400),
         H("c11b::c11_enhanced_oracle_n3", "core", tier="thorough", desc="same, 3 links", bounds="N=3, grid", timeout=6000),
     ],
 )
